@@ -95,26 +95,15 @@ def check(ctx: Ctx) -> str:
     ctx.check("defer_init=defer_init" in ast.unparse(gen.node) and "optimized=self.optimized" in ast.unparse(gen.node), "generate:passes", "environment:Environment._generate", "options passed on", "_generate must pass defer_init and optimized to the code generator", gen.loc())
     gf = repo.func("loaders:ModuleLoader.get_module_filename")
     gk = repo.func("loaders:ModuleLoader.get_template_key")
-    def _parts(e: ast.AST) -> list[str]:
-        # 'a' + x, f'a{x}' and 'a{}'.format(x) are the same text: literal pieces and expressions in order
-        if isinstance(e, ast.BinOp) and isinstance(e.op, ast.Add):
-            return _parts(e.left) + _parts(e.right)
-        if isinstance(e, ast.JoinedStr):
-            out_: list[str] = []
-            for v_ in e.values:
-                out_ += [repr(v_.value)] if isinstance(v_, ast.Constant) else ([ast.unparse(v_.value)] if isinstance(v_, ast.FormattedValue) and v_.conversion == -1 and v_.format_spec is None else ["?"])
-            return out_
-        if isinstance(e, ast.Constant) and isinstance(e.value, str):
-            return [repr(e.value)]
-        return [ast.unparse(e)]
+    _parts = astq.text_parts
 
     ctx.check(_parts(astq.returns(gf.nnode)[0].value) == ["ModuleLoader.get_template_key(name)", "'.py'"], "key:filename", "loaders:ModuleLoader.get_module_filename", "file name from the key", "the module file name must be get_template_key(name) + '.py'", gf.loc())
     ctx.check(_parts(astq.returns(gk.nnode)[0].value) == ["'tmpl_'", "sha1(name.encode('utf-8')).hexdigest()"], "key:hash", "loaders:ModuleLoader.get_template_key", "key function", "the template key must be tmpl_<sha1 of the name>", gk.loc())
     ld = repo.func("loaders:ModuleLoader.load")
     s = ast.unparse(ld.node)
     imps = [c for c in astq.calls(ld.node) if astq.callee(c) == "__import__" and c.args]
-    imported = ast.unparse(_resolve_local(ld.node, imps[0].args[0], deep=True)) if len(imps) == 1 else ""
-    ctx.check(imported == "f'{self.package_name}.{self.get_template_key(name)}'" and "from_module_dict(environment, mod.__dict__, globals)" in s, "load:key", "loaders:ModuleLoader.load", "lookup by the same key", "ModuleLoader.load must import <package>.<get_template_key(name)> and build the template from the module dict", ld.loc())
+    imported = _parts(_resolve_local(ld.node, imps[0].args[0], deep=True)) if len(imps) == 1 else []
+    ctx.check(imported == ["self.package_name", "'.'", "self.get_template_key(name)"] and "from_module_dict(environment, mod.__dict__, globals)" in s, "load:key", "loaders:ModuleLoader.load", "lookup by the same key", "ModuleLoader.load must import <package>.<get_template_key(name)> and build the template from the module dict", ld.loc())
     hs = [h for h in ast.walk(ld.node) if isinstance(h, ast.ExceptHandler)]
     ctx.check(len(hs) == 1 and ast.unparse(hs[0].type) == "ImportError" and "TemplateNotFound(name)" in ast.unparse(hs[0]), "load:missing", "loaders:ModuleLoader.load", "missing module", "a missing module must raise TemplateNotFound", ld.loc())
 
@@ -156,11 +145,16 @@ def _resolve_local(fn: ast.AST, e: ast.AST, deep: bool = False) -> ast.AST:
             e = v
         else:
             break
-    if deep and isinstance(e, ast.JoinedStr):
+    if deep and not isinstance(e, ast.Name):
         e = clone(e)
-        for part in e.values:
-            if isinstance(part, ast.FormattedValue):
-                part.value = _resolve_local(fn, part.value, deep=True)
+
+        class _R(ast.NodeTransformer):
+            def visit_Name(self, n: ast.Name) -> ast.AST:
+                if isinstance(n.ctx, ast.Load) and single(n.id) is not None:
+                    return _resolve_local(fn, n, deep=True)
+                return n
+
+        e = _R().visit(e)
     return e
 
 
